@@ -515,9 +515,7 @@ func InstantiateSchemas(P *Program) []string {
 			}
 			key := fn.RelString(sp.Pkg)
 			full := sc.PkgPath + "." + key
-			if _, exists := P.CS.Funcs[full]; exists {
-				continue // an explicit contract takes precedence
-			}
+			explicit := P.CS.Funcs[full] // an explicit contract keeps its own clauses; the schema instance becomes a further behaviour of it
 			fc := &FuncContract{Key: key, PkgPath: sc.PkgPath, File: sc.File, Line: sc.Line, Props: sc.Props, Loops: map[int]*LoopSpec{},
 				Asserts: map[string][]*Clause{}, Requires: sc.Requires, NoCalls: sc.NoCalls, Allow: sc.Allow, HasMod: false,
 				SchemaOf: sc.Kind + " " + sc.Type}
@@ -543,7 +541,12 @@ func InstantiateSchemas(P *Program) []string {
 				}
 				fc.Ensures = append(fc.Ensures, &Clause{Label: label, Text: txt, Expr: e, File: sc.File, Line: sc.Line, Props: sc.Props})
 			}
-			P.CS.Funcs[full] = fc
+			if explicit != nil {
+				fc.Behavior = "schema"
+				explicit.Behaviors = append(explicit.Behaviors, fc)
+			} else {
+				P.CS.Funcs[full] = fc
+			}
 			n++
 		}
 		if n == 0 {
